@@ -24,7 +24,7 @@ func init() {
 		ID:    "C16",
 		Title: "Sanitized parameters are injection-safe for the library's own parser",
 		Level: "exploration",
-		Rule: "string arguments that are not valid UTF-8; block comments ending in several stars. integer and float arguments of every Go type; templates with array literals under IdomaticArrays, a back-ticked identifier ending in a backslash, block comments that look nested, two minus signs that are no comment. arguments include doubles at and beyond 2^63 and int64 extremes; missing-argument templates include placeholder numbers at the width of an int. templates include `--` comments followed by TAB / CR / nothing and ending in a backslash, and `tpl.pg-ident`: the sanitized text evaluated under PostgresEscapingDialect with double-quoted identifiers. each case = a template with 1..5 placeholders in literal positions (echo, WHERE =/!=, IN lists, BETWEEN, function arguments, LIMIT/OFFSET, placeholders adjacent to operators, repeated placeholders, `$n` inside '...', \"...\", `...`, -- and /* */) " +
+		Rule: "a negative argument behind a minus sign in front of double-quoted identifiers. string arguments that are not valid UTF-8; block comments ending in several stars. integer and float arguments of every Go type; templates with array literals under IdomaticArrays, a back-ticked identifier ending in a backslash, block comments that look nested, two minus signs that are no comment. arguments include doubles at and beyond 2^63 and int64 extremes; missing-argument templates include placeholder numbers at the width of an int. templates include `--` comments followed by TAB / CR / nothing and ending in a backslash, and `tpl.pg-ident`: the sanitized text evaluated under PostgresEscapingDialect with double-quoted identifiers. each case = a template with 1..5 placeholders in literal positions (echo, WHERE =/!=, IN lists, BETWEEN, function arguments, LIMIT/OFFSET, placeholders adjacent to operators, repeated placeholders, `$n` inside '...', \"...\", `...`, -- and /* */) " +
 			"x arguments: strings of length 0..24 over an alphabet of quotes, backslashes, comment introducers, NUL/LF/CR/TAB, `$`, `%`, `_`, multi-byte runes and SQL keyword fragments; int64 (incl. negative); finite float64; booleans; nil. " +
 			"Oracle: (1) the sanitized text parses with the library's own parser to the same AST shape (every literal replaced by ?) as the template with one sentinel literal per placeholder; (2) `SELECT $1 AS v FROM dual` echoes exactly the argument; " +
 			"(3) `WHERE name = $1` over a table returns exactly the rows whose name equals the argument; (4) static template text ($n inside literals, quoted identifiers, comments) survives verbatim and is echoed untouched; (5) missing / unused arguments and $0 give an error, never a panic. " +
